@@ -279,8 +279,8 @@ func c11Index(r *core.Run, p *core.Program) {
 	const rule = "R-C11-index"
 	la := an.NewLockAnalysis(p)
 	callerLocked := map[string]string{
-		"(*lib/chain.Chain).PreCheckBlock":         "documented: call with BlockIndexAccess locked",
-		"(*lib/chain.Chain).AcceptHeader":          "documented: call with BlockIndexAccess locked",
+		"(*lib/chain.Chain).PreCheckBlock":          "documented: call with BlockIndexAccess locked",
+		"(*lib/chain.Chain).AcceptHeader":           "documented: call with BlockIndexAccess locked",
 		"(*lib/chain.BlockTreeNode).delAllChildren": "documented: BlockIndexAccess is locked by DeleteBranch",
 	}
 	startup := map[string]bool{"(*lib/chain.Chain).loadBlockIndex": true, "lib/chain.nextBlock": true, "lib/chain.NewChainExt": true}
